@@ -1,51 +1,333 @@
-import Rivaas.Model.Compiler
-import Rivaas.Spec.CompiledClass
+import Rivaas.Lemmas.CompilerStage1
 /-
 C11 — Route compilation is a transparent optimisation.
-(first stage: bloom filter has no false negatives; the engine theorems follow)
+
+Model   : Model/Compiler.lean (`serveCompiled`, `serveVersioned`, `serveWith`: compiled static table with
+          bloom filter, specificity-sorted dynamic list with first-segment index, `matchAndExtract`,
+          per-tree tables, version cache) on top of Model/Radix.lean (the tree engine)
+Oracle  : the tree engine itself (`serve`), both engines built from the same registration script
+Classes : Spec/CompiledClass.lean (`dOrder1` K11a, `dMulti1` K11d, `dSpace` K11f, `normal` K11e) and the
+          tree-side classes of C01 (`dShadow1`, `dNames1`, `dCfall1`)
+
+`hash` (FNV-1a in the code) is an arbitrary function; the theorems state as a hypothesis that it
+separates the keys in play.
 -/
 namespace Rivaas.C11
-open Rivaas.Route Rivaas.Radix Rivaas.Compiler
+open Rivaas.Route Rivaas.Radix Rivaas.Compiler Rivaas.Match Rivaas.MatchL Rivaas.RadixL Rivaas.CompilerL Rivaas.C01
 
-theorem lemma_add_keeps (b : Bloom) (h p : Nat) (hp : p ∈ b.bits) : p ∈ (b.add h).bits := by
-  simp [Bloom.add, hp]
+/-! ### bloom filter -/
 
 /-- adding keys one after the other (`Add` in a loop) -/
 def addAll (b : Bloom) : List Nat → Bloom
   | [] => b
   | h :: hs => addAll (b.add h) hs
 
-theorem lemma_addAll_keeps (b : Bloom) (hs : List Nat) (p : Nat) (hp : p ∈ b.bits) : p ∈ (addAll b hs).bits := by
+theorem lemma_addAll_has (b : Bloom) (hs : List Nat) (h : Nat) (hb : Bloom.has b h) : Bloom.has (addAll b hs) h := by
   induction hs generalizing b with
-  | nil => exact hp
-  | cons x xs ih => exact ih _ (lemma_add_keeps b x p hp)
+  | nil => exact hb
+  | cons x xs ih => exact ih _ (Bloom.has_add_mono b h x hb)
 
-theorem lemma_addAll_params (b : Bloom) (hs : List Nat) :
-    (addAll b hs).size = b.size ∧ (addAll b hs).seeds = b.seeds := by
-  induction hs generalizing b with
-  | nil => exact ⟨rfl, rfl⟩
-  | cons x xs ih => exact ⟨(ih (b.add x)).1, (ih (b.add x)).2⟩
-
-/-- No false negatives: a key that was added tests positive — for every filter size (1..4096 and
+/-- **No false negatives**: a key that was added tests positive — for every filter size (1..4096 and
 beyond, 0 included), every number of hash functions, every set of keys and every hash value. -/
 theorem bloom_no_false_negative (b : Bloom) (hs : List Nat) (h : Nat) (hh : h ∈ hs) :
     (addAll b hs).test h = true := by
+  apply Bloom.test_of_has
   induction hs generalizing b with
   | nil => simp at hh
   | cons y ys ih =>
     simp only [List.mem_cons] at hh
     rcases hh with rfl | hh
-    · obtain ⟨hsz, hsd⟩ := lemma_addAll_params (b.add h) ys
-      simp only [Bloom.test, List.all_eq_true, List.contains_eq_mem, decide_eq_true_eq, addAll, hsd]
-      intro s hs'
-      apply lemma_addAll_keeps
-      have : (addAll (b.add h) ys).pos h s = b.pos h s := by
-        simp only [Bloom.pos, hsz]; rfl
-      rw [this]
-      simp only [Bloom.add, List.mem_append, List.mem_map]
-      left; exact ⟨s, by simpa [Bloom.add] using hs', rfl⟩
+    · exact lemma_addAll_has _ ys h (Bloom.has_add_self b h)
     · exact ih (b.add y) hh
 
 example : (addAll (Bloom.new 1 8) [12345, 99]).test 99 = true := by decide
+
+/-! ### from the driver's Boolean side conditions to the hypotheses of the lemmas -/
+
+theorem lemma_isWhite (c : Char) : isWhite c = isSpace c := rfl
+
+theorem lemma_trim (text : Bytes) (hh : text.head? = some '/')
+    (hl : (match text.getLast? with | some c => isWhite c | none => false) = false) :
+    trimSpace text = text := by
+  unfold trimSpace
+  cases text with
+  | nil => simp at hh
+  | cons c rest =>
+    simp only [List.head?_cons, Option.some.injEq] at hh
+    subst hh
+    have h1 : ('/' :: rest).dropWhile isSpace = '/' :: rest := by
+      simp [List.dropWhile_cons, isSpace]
+    rw [h1]
+    have hne : ('/' :: rest) ≠ [] := by simp
+    have h2 : ('/' :: rest).reverse.dropWhile isSpace = ('/' :: rest).reverse := by
+      rw [List.getLast?_eq_some_getLast hne] at hl
+      simp only [lemma_isWhite] at hl
+      have hrev : ('/' :: rest).reverse = ('/' :: rest).getLast hne :: ('/' :: rest).dropLast.reverse := by
+        conv => lhs; rw [← List.dropLast_concat_getLast hne]
+        simp
+      rw [hrev, List.dropWhile_cons, hl]
+      rfl
+    rw [h2, List.reverse_reverse]
+
+theorem lemma_good (script : List Reg) (R : List Route) (hR : specRoutes script = some R) (hN : normal R = true)
+    (hSp : dSpace R = false) (hstd : ∀ g ∈ script, g.method ∈ stdMethods) : StatR R ∧ GoodR R := by
+  have hNR := lemma_normalR R hN
+  have hall : ∀ r ∈ R, NormalPat r.text r.pat ∧ trimSpace r.text = r.text ∧ r.method ∈ stdMethods ∧
+      parsePattern r.text = some r.pat := by
+    intro r hr
+    have hn := (hNR r hr).1
+    refine ⟨hn, ?_, ?_, ?_⟩
+    · apply lemma_trim
+      · rw [hn.text]; rfl
+      · have := Bool.eq_false_iff.mpr ((List.any_eq_false.mp hSp) r hr)
+        exact this
+    · obtain ⟨g, hg, hgm⟩ := lemma_methods script 0 R hR r hr
+      rw [hgm]; exact hstd g hg
+    · simp only [normal, List.all_eq_true] at hN
+      have := hN r hr
+      simp only [normalRoute, Bool.and_eq_true, decide_eq_true_eq] at this
+      exact this.1
+  exact ⟨hall, fun r hr => ⟨(hall r hr).1, (hall r hr).2.1⟩⟩
+
+/-- the texts the hash has to separate for one request: the request's own keys and every registered
+(method, pattern) and pattern -/
+def hashKeys (R : List Route) (req : Req) : List Bytes :=
+  (req.method ++ req.path) :: req.path :: ((R.map fun r => r.method ++ r.text) ++ R.map (·.text))
+
+theorem lemma_inj1 (hash : Bytes → Nat) (R : List Route) (req : Req) (h : InjOn hash (hashKeys R req)) :
+    InjOn hash ((req.method ++ req.path) :: R.map fun r => r.method ++ r.text) := by
+  intro a ha b hb hab
+  apply h a _ b _ hab
+  · simp only [hashKeys, List.mem_cons, List.mem_append] at ha ⊢
+    rcases ha with ha | ha
+    · left; exact ha
+    · right; right; left; exact ha
+  · simp only [hashKeys, List.mem_cons, List.mem_append] at hb ⊢
+    rcases hb with hb | hb
+    · left; exact hb
+    · right; right; left; exact hb
+
+theorem lemma_inj2 (hash : Bytes → Nat) (R : List Route) (req : Req) (h : InjOn hash (hashKeys R req)) :
+    InjOn hash (req.path :: R.map (·.text)) := by
+  intro a ha b hb hab
+  apply h a _ b _ hab
+  · simp only [hashKeys, List.mem_cons, List.mem_append] at ha ⊢
+    rcases ha with ha | ha
+    · right; left; exact ha
+    · right; right; right; exact ha
+  · simp only [hashKeys, List.mem_cons, List.mem_append] at hb ⊢
+    rcases hb with hb | hb
+    · right; left; exact hb
+    · right; right; right; exact hb
+
+/-! ### the engines -/
+
+/-- **C11, main tree.** For every script of the vocabulary, every constraint table, every bloom filter
+size and number of hash functions, and every request whose path starts with `/` (empty and trailing
+segments included): unless the request is in one of the recorded classes, the engine with route
+compilation answers exactly like the plain tree engine — same status, same handler, same route pattern,
+same parameter bindings, same `Allow`. The order of the compiled candidate list, the first-segment index
+and the ten-route thresholds do not enter. -/
+theorem compiled_eq_tree_partial (hash : Bytes → Nat) (sat : Nat → Bytes → Bool) (o : Opts) (noRoute : Bool)
+    (script : List Reg) (R : List Route) (hR : specRoutes script = some R) (hN : normal R = true)
+    (hSp : dSpace R = false) (hstd : ∀ g ∈ script, g.method ∈ stdMethods)
+    (req : Req) (hp : req.path.head? = some '/') (hmeth : '/' ∉ req.method)
+    (hinj : InjOn hash (hashKeys R req))
+    (hS : dShadow1 R req.method (cutAny req.path) = false) (hNm : dNames1 R req.method (cutAny req.path) = false)
+    (hC : dCfall1 sat R req.method (cutAny req.path) = false)
+    (hO : dOrder1 sat R req.method (cutAny req.path) = false)
+    (hM : dMulti1 R req.method (cutAny req.path) = false) :
+    serveCompiled hash sat o script noRoute req = serve sat (build noRoute script) req := by
+  obtain ⟨hStat, hGood⟩ := lemma_good script R hR hN hSp hstd
+  unfold serveCompiled
+  simp only
+  cases h1 : (rcBuild hash script).lookupStatic hash req.method req.path with
+  | some cr =>
+    exact stage1_eq hash sat noRoute script R hR hN hStat hstd req hp hmeth (lemma_inj1 hash R req hinj) cr h1
+  | none =>
+    simp only
+    cases h2 : (rcBuild hash script).matchDynamic sat req.method req.path with
+    | some res =>
+      obtain ⟨cr, e⟩ := res
+      exact stage2_eq hash sat noRoute script R hR hN hGood hstd req hp hS hNm hC hO hM cr e h2
+    | none =>
+      simp only
+      unfold serve
+      by_cases hm : req.method ∈ stdMethods
+      · rw [treeOf_build noRoute script R hR req.method hm]
+        by_cases hf : R.filter (·.method = req.method) = []
+        · simp [hf]
+        · simp only [hf, if_false]
+          exact stage3_eq hash sat R (fun r hr => (hGood r hr).1) req.method o.size o.k req (build noRoute script)
+            (lemma_inj2 hash R req hinj)
+      · have : treeOf (build noRoute script) req.method = none := by simp [treeOf, hm]
+        rw [this]
+
+/-- **C11, version tree.** Inside a version tree nothing depends on route compilation or on the bloom
+configuration — no guard on the route set at all. -/
+theorem versioned_eq (hash : Bytes → Nat) (sat : Nat → Bytes → Bool) (o o' : Opts) (noRoute : Bool)
+    (script : List Reg) (R : List Route) (hR : specRoutes script = some R) (hN : normal R = true)
+    (hstd : ∀ g ∈ script, g.method ∈ stdMethods) (req : Req) (hinj : InjOn hash (hashKeys R req)) :
+    serveVersioned hash sat o script noRoute req = serveVersioned hash sat o' script noRoute req := by
+  have hNR := lemma_normalR R hN
+  apply versioned_transparent hash sat o o' noRoute script R hR (fun r hr => (hNR r hr).1) _ req
+    (lemma_inj2 hash R req hinj)
+  intro r hr
+  obtain ⟨g, hg, hgm⟩ := lemma_methods script 0 R hR r hr
+  rw [hgm]; exact hstd g hg
+
+/-- **C11, as the harness observes it**: the engine selected by any options against the plain engine
+in the same placement (main tree or version tree). -/
+theorem C11_partial (hash : Bytes → Nat) (sat : Nat → Bytes → Bool) (o : Opts) (noRoute : Bool)
+    (script : List Reg) (R : List Route) (hR : specRoutes script = some R) (hN : normal R = true)
+    (hSp : dSpace R = false) (hstd : ∀ g ∈ script, g.method ∈ stdMethods)
+    (req : Req) (hp : req.path.head? = some '/') (hmeth : '/' ∉ req.method)
+    (hinj : InjOn hash (hashKeys R req))
+    (hS : dShadow1 R req.method (cutAny req.path) = false) (hNm : dNames1 R req.method (cutAny req.path) = false)
+    (hC : dCfall1 sat R req.method (cutAny req.path) = false)
+    (hO : dOrder1 sat R req.method (cutAny req.path) = false)
+    (hM : dMulti1 R req.method (cutAny req.path) = false) :
+    serveWith hash sat o script noRoute req =
+      serveWith hash sat { compiled := false, bloomSize := 0, bloomK := 0, versioned := o.versioned } script noRoute req := by
+  unfold serveWith
+  by_cases hv : o.versioned = true
+  · simp only [hv, if_true]
+    exact versioned_eq hash sat _ _ noRoute script R hR hN hstd req hinj
+  · simp only [hv, Bool.false_eq_true, if_false]
+    by_cases hc : o.compiled = true
+    · simp only [hc, if_true]
+      exact compiled_eq_tree_partial hash sat o noRoute script R hR hN hSp hstd req hp hmeth hinj hS hNm hC hO hM
+    · simp [hc]
+
+/-- **Every difference between the two engines is classified**: where the driver prints `-` the
+engines agree. -/
+theorem classify11_dash (hash : Bytes → Nat) (sat : Nat → Bytes → Bool) (o : Opts) (noRoute : Bool)
+    (script : List Reg) (R : List Route) (hR : specRoutes script = some R)
+    (hstd : ∀ g ∈ script, g.method ∈ stdMethods)
+    (req : Req) (hp : req.path.head? = some '/') (hmeth : '/' ∉ req.method)
+    (hinj : InjOn hash (hashKeys R req))
+    (hcls : classify11 sat R req (cutAny req.path) = "-") :
+    serveWith hash sat o script noRoute req =
+      serveWith hash sat { compiled := false, bloomSize := 0, bloomK := 0, versioned := o.versioned } script noRoute req := by
+  unfold classify11 at hcls
+  simp only at hcls
+  cases hSp : dSpace R with
+  | true => simp [hSp] at hcls
+  | false =>
+    cases hN : normal R with
+    | false => simp [hSp, hN] at hcls
+    | true =>
+      cases hM : dMulti1 R req.method (cutAny req.path) with
+      | true => simp [hSp, hN, hM] at hcls
+      | false =>
+        cases hOw : dOverwrite1 R req.method (cutAny req.path) with
+        | true => simp [hSp, hN, hM, hOw] at hcls
+        | false =>
+          cases hNm : dNames1 R req.method (cutAny req.path) with
+          | true => simp [hSp, hN, hM, hOw, hNm] at hcls
+          | false =>
+            cases hS : dShadow1 R req.method (cutAny req.path) with
+            | true => simp [hSp, hN, hM, hOw, hNm, hS] at hcls
+            | false =>
+              cases hC : dCfall1 sat R req.method (cutAny req.path) with
+              | true => simp [hSp, hN, hM, hOw, hNm, hS, hC] at hcls
+              | false =>
+                cases hO : dOrder1 sat R req.method (cutAny req.path) with
+                | true => simp [hSp, hN, hM, hOw, hNm, hS, hC, hO] at hcls
+                | false =>
+                  exact C11_partial hash sat o noRoute script R hR hN hSp hstd req hp hmeth hinj hS hNm hC hO hM
+
+
+/-! ### witnesses of the recorded findings (replayed on the implementation: corpus/C11) and of the
+repaired ones -/
+
+def B (s : String) : Bytes := s.toList
+def G : Bytes := B "GET"
+def anySat : Nat → Bytes → Bool := fun _ _ => true
+def reg (m p : String) (cons : List (Bytes × Nat) := []) : Reg := ⟨B m, [], B p, cons⟩
+/-- a hash that separates all byte strings (base-257 reading) -/
+def polyHash (bs : Bytes) : Nat := bs.foldl (fun h c => h * 257 + c.toNat + 1) 0
+def onOpts : Opts := ⟨true, 0, 0, false⟩
+
+/-- K11a — the compiled matcher scans by number of static segments, then registration order -/
+def k11aScript : List Reg := [reg "GET" "/:kind/list", reg "GET" "/users/:id"]
+def k11aReq : Req := ⟨G, B "/users/list", [B "kind", B "id"]⟩
+
+theorem K11a_witness : ∃ R, specRoutes k11aScript = some R ∧
+    (serveCompiled polyHash anySat onOpts k11aScript false k11aReq).ran = some 0 ∧
+    (serve anySat (build false k11aScript) k11aReq).ran = some 1 ∧
+    classify11 anySat R k11aReq (cutAny k11aReq.path) = "order" :=
+  ⟨_, rfl, by decide, by decide, by decide⟩
+
+/-- K11b (repaired in dc644f8) — as shipped, the two-segment fast path accepted an empty parameter -/
+theorem K11b_asIs_witness :
+    (matchAndExtractGen true anySat (compileRoute G (B "/users/:id") [] 0) (B "/users/") []).1 = true ∧
+    (matchAndExtractGen false anySat (compileRoute G (B "/users/:id") [] 0) (B "/users/") []).1 = false ∧
+    (serve anySat (build false [reg "GET" "/users/:id"]) ⟨G, B "/users/", []⟩).status = 404 :=
+  ⟨by decide, by decide, by decide⟩
+
+/-- K11c (repaired in 1f65990) — a nine-parameter route: nine writes, eight inline slots. As shipped
+`paramCount` was set to 9 and `Param` indexed past the array; now eight slots and one map entry. -/
+def k11cRoute : CRoute := compileRoute G (B "/:p1/:p2/:p3/:p4/:p5/:p6/:p7/:p8/:p9") [] 0
+
+theorem K11c_witness :
+    k11cRoute.params.length = 9 ∧
+    (matchAndExtract anySat k11cRoute (B "/1/2/3/4/5/6/7/8/9") []).1 = true ∧
+    (matchAndExtract anySat k11cRoute (B "/1/2/3/4/5/6/7/8/9") []).2.slots.length = 8 ∧
+    (matchAndExtract anySat k11cRoute (B "/1/2/3/4/5/6/7/8/9") []).2.over = [(B "p9", B "9")] :=
+  ⟨by decide, by decide, by decide, by decide⟩
+
+/-- K11d — two constraints on one parameter: constraint 0 accepts everything, constraint 1 nothing -/
+def k11dSat : Nat → Bytes → Bool := fun cid _ => cid == 0
+def k11dScript : List Reg := [reg "GET" "/u/:id" [(B "id", 0), (B "id", 1)]]
+def k11dReq : Req := ⟨G, B "/u/07", [B "id"]⟩
+
+theorem K11d_witness : ∃ R, specRoutes k11dScript = some R ∧
+    (serveCompiled polyHash k11dSat onOpts k11dScript false k11dReq).ran = some 0 ∧
+    (serve k11dSat (build false k11dScript) k11dReq).status = 404 ∧
+    classify11 k11dSat R k11dReq (cutAny k11dReq.path) = "multicons" :=
+  ⟨_, rfl, by decide, by decide, by decide⟩
+
+/-- K11e — a constraint on a name the pattern does not declare -/
+def k11eScript : List Reg := [reg "GET" "/u/:id" [(B "uid", 0)]]
+def k11eReq : Req := ⟨G, B "/u/7", [B "id"]⟩
+
+theorem K11e_witness : ∃ R, specRoutes k11eScript = some R ∧
+    (serveCompiled polyHash anySat onOpts k11eScript false k11eReq).ran = some 0 ∧
+    (serve anySat (build false k11eScript) k11eReq).status = 404 ∧
+    classify11 anySat R k11eReq (cutAny k11eReq.path) = "undeclared" :=
+  ⟨_, rfl, by decide, by decide, by decide⟩
+
+/-- K11f — a pattern text that ends in white space -/
+def k11fScript : List Reg := [reg "GET" "/a/:x "]
+def k11fReq : Req := ⟨G, B "/a/1", [B "x", B "x "]⟩
+
+theorem K11f_witness : ∃ R, specRoutes k11fScript = some R ∧
+    (serveCompiled polyHash anySat onOpts k11fScript false k11fReq).lookups = [(B "x", B "1"), (B "x ", B "")] ∧
+    (serve anySat (build false k11fScript) k11fReq).lookups = [(B "x", B ""), (B "x ", B "1")] ∧
+    classify11 anySat R k11fReq (cutAny k11fReq.path) = "space" :=
+  ⟨_, rfl, by decide, by decide, by decide⟩
+
+/-! ### non-vacuity -/
+
+def exSat : Nat → Bytes → Bool := fun _ v => v == B "42"
+def exScript : List Reg :=
+  [reg "GET" "/users/:id" [(B "id", 0)], reg "GET" "/users/list", reg "GET" "/health", reg "POST" "/users/:id",
+   reg "GET" "/files/*", reg "GET" "/"]
+def exReq : Req := ⟨G, B "/users/42", [B "id"]⟩
+def exOpts : Opts := ⟨true, 7, 5, false⟩
+
+/-- the hypotheses of `compiled_eq_tree_partial` hold for a script with a constrained parameter route,
+static siblings, a second method, a wildcard and the root, a 7-bit bloom filter with 5 hash functions,
+and a hash that separates the keys; the compiled dynamic stage is the one that answers -/
+example : ∃ R, specRoutes exScript = some R ∧ normal R = true ∧ dSpace R = false ∧
+    (∀ g ∈ exScript, g.method ∈ stdMethods) ∧ exReq.path.head? = some '/' ∧ '/' ∉ exReq.method ∧
+    dShadow1 R exReq.method (cutAny exReq.path) = false ∧ dNames1 R exReq.method (cutAny exReq.path) = false ∧
+    dCfall1 exSat R exReq.method (cutAny exReq.path) = false ∧ dOrder1 exSat R exReq.method (cutAny exReq.path) = false ∧
+    dMulti1 R exReq.method (cutAny exReq.path) = false ∧ InjOn polyHash (hashKeys R exReq) ∧
+    ((rcBuild polyHash exScript).matchDynamic exSat exReq.method exReq.path).isSome = true ∧
+    (serveCompiled polyHash exSat exOpts exScript false exReq).lookups = [(B "id", B "42")] :=
+  ⟨_, rfl, by decide, by decide, by decide, by decide, by decide, by decide, by decide, by decide, by decide, by decide,
+   by unfold InjOn; decide, by decide, by decide⟩
 
 end Rivaas.C11
